@@ -85,7 +85,7 @@ def cloneBackward (g : NDArray α) : NDArray α := g
 /-! ### sum / squeeze / unsqueeze / reshape / movedim / transpose / flatten / unfold -/
 def sumForward (a : NDArray α) (ax : Axes) (keep : Bool) : Option (NDArray α) := Np.sum a ax keep
 def sumBackward (g : NDArray α) (sa : Shape) (ax : Axes) (keep : Bool) : Option (NDArray α) := do
-  let axes ← ax.norm sa.length
+  let axes ← ax.normRed sa.length
   pure (unreduce g sa axes (keep || ax == .all))
 
 /-- `squeeze_forward` as written: `None` squeezes everything; an int squeezes that axis when it
@@ -185,13 +185,13 @@ def argExt (better : α → α → Bool) (a : NDArray α) (axes : List Nat) (kee
 
 def extForward (better : α → α → Bool) (a : NDArray α) (dim : Option Int) (keep : Bool) : Option (NDArray α) := do
   let ax := match dim with | none => Axes.all | some d => Axes.one d
-  let axes ← ax.norm a.shape.length
+  let axes ← ax.normRed a.shape.length
   if (axes.any (fun k => a.shape.getD k 0 == 0)) || (a.shape.size = 0) then none
   pure (ofFn (reduceShape a.shape axes keep) (fun o => a.get (argExt better a axes keep o)))
 
 def extBackward (better : α → α → Bool) (g a : NDArray α) (dim : Option Int) (keep : Bool) : Option (NDArray α) := do
   let ax := match dim with | none => Axes.all | some d => Axes.one d
-  let axes ← ax.norm a.shape.length
+  let axes ← ax.normRed a.shape.length
   -- `grad * mask` broadcasts the (expanded) gradient against the mask
   let keepG := keep || dim.isNone
   let gShape := if dim.isNone then g.shape else reduceShape a.shape axes true
